@@ -171,7 +171,7 @@ def check_field(ctx, case):
                 on_special = kind.startswith("special")
                 near_axis = None
                 if s["cls"] == "CylinderSegment":
-                    near_axis = bool(np.hypot(Pl[i][0], Pl[i][1]) < 0.05 * s["dimension"][1])
+                    near_axis = bool(np.hypot(Pl[i][0], Pl[i][1]) < 0.1 * s["dimension"][1])
                 ctx.violation({"kind": "scale-dependent-field", "cls": cgroup(s["cls"]), "where": wgroup(kind),
                                "scale": sbucket(f), "cylseg_near_axis": near_axis},
                               case, {"i": i, "base": a, "scaled_back": b, "scale": f, "ratio": w, "F": F, "local": Pl[i]})
